@@ -897,9 +897,11 @@ impl<'a> LabelValue<'a> {
         else {
             self.target.buf.push_str(", ");
         }
+        write!(&mut self.target.buf, "{name}=\"").expect("writing to string");
         write!(
-            &mut self.target.buf, "{name}=\"{value}\""
+            &mut LabelEscape(&mut self.target.buf), "{value}"
         ).expect("writing to string");
+        self.target.buf.push('"');
         self
     }
 
@@ -907,6 +909,28 @@ impl<'a> LabelValue<'a> {
         writeln!(
             &mut self.target.buf, "}} {value}"
         ).expect("writing to string");
+    }
+}
+
+
+//------------ LabelEscape ---------------------------------------------------
+
+/// Escapes a label value as required by the Prometheus text format.
+///
+/// Backslash, double quote, and line feed have to be escaped.
+struct LabelEscape<'a>(&'a mut String);
+
+impl fmt::Write for LabelEscape<'_> {
+    fn write_str(&mut self, s: &str) -> fmt::Result {
+        for ch in s.chars() {
+            match ch {
+                '\\' => self.0.push_str("\\\\"),
+                '"' => self.0.push_str("\\\""),
+                '\n' => self.0.push_str("\\n"),
+                _ => self.0.push(ch)
+            }
+        }
+        Ok(())
     }
 }
 
